@@ -17,6 +17,7 @@ pub mod ranges;
 pub mod warning;
 
 use error::{Error, Result};
+use parsed_value::DefaultLocales;
 use warning::Warnings;
 
 use crate::utils::{formatter::SkipIcuCfgGuard, Key, KeyPath, UnwrapAt};
@@ -89,7 +90,11 @@ pub fn make_builder_keys(
 
     locales.merge_plurals(warnings)?;
 
-    resolve_foreign_keys(&locales, &cfg_file.default, foreign_keys_paths.into_inner())?;
+    let default_locales = DefaultLocales {
+        default: &cfg_file.default,
+        inherits: &cfg_file.extensions,
+    };
+    resolve_foreign_keys(&locales, default_locales, foreign_keys_paths.into_inner())?;
 
     check_locales(locales, &cfg_file.extensions, warnings)
 }
@@ -114,7 +119,7 @@ pub fn parse_locales(
 
 fn resolve_foreign_keys(
     values: &LocalesOrNamespaces,
-    default_locale: &Key,
+    default_locale: DefaultLocales,
     foreign_keys_paths: BTreeSet<(Key, KeyPath)>,
 ) -> Result<()> {
     for (locale, value_path) in foreign_keys_paths {
